@@ -154,6 +154,10 @@ class LenEval(SE.SymEval):
     def stmt(self, st, env, knext, kret, as_tail=None):
         if isinstance(st, dict) and st.get('k') in ('slet', 'call', 'mcall', 'assign'):
             env = self.invalidate(st.get('init', st) if st.get('k') == 'slet' else st, env)
+        elif isinstance(st, dict) and st.get('k') == 'if':
+            env = self.invalidate(st['c'], env)
+        elif isinstance(st, dict) and st.get('k') == 'match':
+            env = self.invalidate(st['scrut'], env)
         if isinstance(st, dict) and not env.get('#dead'):
             if st.get('k') == 'slet' and 'init' in st:
                 self.scan_sub(st['init'], env)
